@@ -47,6 +47,7 @@ def gen(rng, tier):
         'lat': rng.randrange(len(LATS)),
         'namespaces': rng.choice([None, None, '*', ['/', '/a']]),
         'policy': rng.choice(['fifo', 'random', 'pct']),
+        'raise_p': rng.choice([0, 0, 1, 2]),       # out of 8
     }
     npeers = rng.randrange(2, 5)
     shapes = {ev: rng.choice(SHAPES) for ev in EVENTS + ['other']}
@@ -120,6 +121,7 @@ def run(case):
 def _run(case, cfg, v, reg, shapes, msgpack, w):
     srv = w.add_server('s', async_handlers=cfg['async_handlers'],
                        namespaces=cfg['namespaces'])
+    raised = set()
 
     def plan(label, args, ev):
         # label = (who, kind, ns, event-or-*)
@@ -137,6 +139,15 @@ def _run(case, cfg, v, reg, shapes, msgpack, w):
             name = args[0]
         shape = shapes.get(name, shapes['other'])
         pause = w.choices.pick('app', PAUSES, 'pause')
+        if cfg.get('raise_p') and w.choices.chance('faults', cfg['raise_p'],
+                                                   8, 'hraise'):
+            # fault: the application handler fails; the event still counts
+            # as handled once, nothing is acknowledged, and the client's
+            # later events are served as usual
+            w.rec.count('fault.handler_raise')
+            raised.add(tok)
+            return [('pause', pause),
+                    ('raise', RuntimeError('injected handler failure'))]
         return [('pause', pause), ('ret', ret_for(shape, tok))]
 
     coroutine = cfg['coroutine'] and cfg['mode'] == 'async'
@@ -318,7 +329,9 @@ def _run(case, cfg, v, reg, shapes, msgpack, w):
         exp_strict = list(expected_rx[p])
         exp_opt = []
         for r in all_recs:
-            if r['peer'] == p and r['racy'] and 'ack' in r:
+            if r['peer'] == p and 'ack' in r and r['tok'] in raised:
+                exp_strict.remove(r['ack'])      # a failed handler: no ACK
+            elif r['peer'] == p and r['racy'] and 'ack' in r:
                 exp_strict.remove(r['ack'])
                 exp_opt.append(r['ack'])
         missing, surplus = multiset_diff(exp_strict, got)
@@ -349,6 +362,8 @@ def _run(case, cfg, v, reg, shapes, msgpack, w):
                           'the previous one returned' % (p, tok))
                 last_exit = exits.get(e['seq'], e['seq'])
     for e in w.rec.errors:
+        if 'injected handler failure' in (e.get('exc') or ''):
+            continue
         v.add('error_logged', '%s %s' % (e['msg'], e.get('exc')),
               (e.get('exc') or '').split(':')[0])
     stats = {'faults': {k: n for k, n in w.rec.counters.items()
